@@ -189,6 +189,7 @@ func (e *c14ConnEnv) ensure(cid string) *c14Peer {
 }
 
 func c14RunConn(in c14In) (obs c14Obs) {
+	in = c14ExpandIn(in)
 	e := c14NewConnEnv(in.Lru)
 	defer func() {
 		for _, p := range e.peers {
